@@ -51,7 +51,7 @@ var c12Positions = []struct {
 }
 
 func init() {
-	floor := []string{"item.async", "item.async-union", "item.async-cte", "item.async-multidim", "item.once-multidim", "item.async-derived", "item.cte-dual-star", "item.fuse-dual-star", "item.fuse", "item.fuse-alias", "item.setvar", "item.async-derived-object", "item.async-join-operand", "item.cte-by-name", "item.fuse-async", "item.marker", "reexec.after-fault", "group.mixed-keys", "rich", "parjoin"}
+	floor := []string{"item.async", "item.async-union", "item.async-cte", "item.async-multidim", "item.once-multidim", "item.async-derived", "item.cte-dual-star", "item.fuse-dual-star", "item.fuse", "item.fuse-alias", "item.setvar", "item.async-derived-object", "item.async-join-operand", "item.cte-by-name", "item.fuse-async", "item.marker", "reexec.after-fault", "group.mixed-keys", "join.limit", "rich", "parjoin"}
 	for _, f := range c12Forms {
 		floor = append(floor, "form."+f.name)
 	}
@@ -78,6 +78,7 @@ func init() {
 			}, Run: c12Matrix},
 			{Name: "rich", N: func(t fw.Tier) int { return pick(t, 10000, 200000) }, Run: c12Rich},
 			{Name: "groups", N: func(t fw.Tier) int { return pick(t, 600, 12000) }, Run: c12Groups},
+			{Name: "joinlimit", N: func(t fw.Tier) int { return pick(t, 200, 4000) }, Run: c12JoinLimit},
 			{Name: "parjoin", N: func(t fw.Tier) int { return pick(t, 128, 2000) }, Run: c12ParJoin, Batch: 8},
 		},
 		Witness: sqlWitness,
@@ -391,6 +392,53 @@ func c12Groups(c *fw.Case) {
 	}
 	c.Evals(1 + R)
 	if len(first.Rows) >= 2 {
+		c.Nontrivial(sql + "|" + val.Canon(doc))
+	}
+}
+
+
+// c12JoinLimit: a LIMIT [OFFSET] window over a join (no ORDER BY) is evaluated
+// repeatedly on equal inputs; every evaluation must return the same multiset
+// of rows - whatever order the join produces, it is the same order every time.
+func c12JoinLimit(c *fw.Case) {
+	keys := 8 + c.Intn(30)
+	var l, r []any
+	for i := 0; i < keys*2; i++ {
+		l = append(l, map[string]any{"id": float64(i), "k": float64(c.Intn(keys))})
+	}
+	for i := 0; i < keys*2; i++ {
+		r = append(r, map[string]any{"id": float64(i), "k": float64(c.Intn(keys + 3))})
+	}
+	doc := map[string]any{"l": l, "r": r}
+	jn := gen.Pick(c.R, []string{"JOIN", "LEFT JOIN", "RIGHT JOIN", "HASH_JOIN", "STRAIGHT_JOIN", "PARALLEL JOIN", "PARALLEL LEFT JOIN", "PARALLEL HASH_JOIN"})
+	on := gen.Pick(c.R, []string{"x.k = y.k", "x.k = y.k", "x.k >= y.k AND x.k <= y.k", "x.k = y.k OR x.id = y.id"})
+	sql := fmt.Sprintf("SELECT x.id AS a, y.id AS b FROM l x %s r y ON %s LIMIT %d", jn, on, 1+c.Intn(6))
+	if c.Chance(0.4) {
+		sql += fmt.Sprintf(" OFFSET %d", c.Intn(5))
+	}
+	c.Feature("join.limit")
+	first := Run(val.CopyMap(doc), sql)
+	c.Sample(map[string]any{"sql": sql, "key_groups": keys})
+	det := map[string]any{"sql": sql, "doc": doc, "observed": first.Describe()}
+	if first.Panic != nil {
+		c.Violate("panic", fmt.Sprintf("panic escaped: %v", first.Panic), det)
+		return
+	}
+	if first.Err != nil {
+		c.Discard("query rejected with an error (not judged)")
+		return
+	}
+	R := pick(c.Tier, 8, 20)
+	for rep := 1; rep <= R; rep++ {
+		again := Run(val.CopyMap(doc), sql)
+		if !again.OK() || !val.SameMultiset(first.Rows, again.Rows) {
+			det["repetition"] = again.Describe()
+			c.Violate("nondeterministic", fmt.Sprintf("evaluation %d of the same join with a LIMIT window returned other rows: %s vs %s", rep+1, short(fmt.Sprint(again.Describe()), 200), short(val.Canon(first.Rows), 200)), det)
+			return
+		}
+	}
+	c.Evals(1 + R)
+	if len(first.Rows) >= 1 {
 		c.Nontrivial(sql + "|" + val.Canon(doc))
 	}
 }
